@@ -137,6 +137,9 @@ def build_message(tier, seed):
             for vi, v in enumerate(vals):
                 if tier == "quick" and (ki + vi) % 2 != 0 and len(vals) > 2:
                     continue
+                lo_t, hi_t = int_range(ty)
+                if (k == "greater_or_equal" and v == lo_t) or (k == "less_or_equal" and v == hi_t):
+                    continue   # nothing can violate the rule: no message is obtainable
                 d = b.new(inner_int(ty), tags=tags)
                 d.vals.append(int_bound(k, ty, v, "lit" if (ki + vi) % 3 else "const", d))
                 d.derives = ["Debug", "FromStr"]
